@@ -381,9 +381,13 @@ def c03_check(mod, text, cfg, reifies=(True, False)):
     # the stated tolerance is relative (1e-6): a physical unit honoured to 1e-6 moves a point by this much
     slack = []
     if re.search(r"\d\s*(cm|mm|in)\b", text) or isinstance(cfg["width"], str) or isinstance(cfg["height"], str):
-        pert = docgeom.evaluate(text, cfg["ppi"], cfg["width"], cfg["height"], cfg["transform"], unit_eps=1e-6)
-        if len(pert) == len(oracle):
-            slack = [docgeom.max_deviation(o, p) for o, p in zip(oracle, pert)]
+        # each physical unit separately (the conversion constants err independently: 0.393701 for cm and mm, exact
+        # for in), deviations added: a joint perturbation lets the errors of two units cancel in a meet/slice scale
+        slack = [0.0] * len(oracle)
+        for unit in ("in", "cm", "mm"):
+            pert = docgeom.evaluate(text, cfg["ppi"], cfg["width"], cfg["height"], cfg["transform"], unit_eps={unit: 1e-6})
+            if len(pert) == len(oracle):
+                slack = [s_ + docgeom.max_deviation(o, p) for s_, o, p in zip(slack, oracle, pert)]
     outlines = {}
     for reify in reifies:
         try:
